@@ -1081,6 +1081,55 @@ void check_conversions(ctx_t& cx, const oracle_t& o, tensor_mem_t<T, R>& mem)
             cx.fail("memory:convert", {});
         }
     }
+    if constexpr (R >= 1)
+    {
+        // an owning tensor assigned from a view of its own buffer (the idiom `t = t.slice(0, k)` of src/gboost/result.cpp):
+        // afterwards it holds exactly the elements the view addressed, through the mutable and the constant mapping alike
+        const idx_t n0     = dd[0];
+        const idx_t stride = n0 > 0 ? N / n0 : 0;
+        const auto  holds  = [&](const M& t, const idx_t b, const idx_t e)
+        {
+            auto expdims = dd;
+            expdims[0]   = e - b;
+            bool ok      = t.dims() == expdims && t.size() == (e - b) * stride;
+            for (idx_t j = 0; ok && j < t.size(); ++j)
+            {
+                ok = t.data()[j] == val<T>(b * stride + j);
+            }
+            return ok;
+        };
+        for (idx_t b = 0; b <= n0; ++b)
+        {
+            for (idx_t e = b; e <= n0; ++e)
+            {
+                M a = mem;
+                a   = a.slice(b, e);
+                M k = mem;
+                k   = std::as_const(k).slice(b, e);
+                ++cx.ev;
+                cx.nt += (e - b) * stride > 0 && e - b < n0 ? 1 : 0;
+                if (!holds(a, b, e))
+                {
+                    cx.fail("convert:mem=own-map-slice:rank" + std::to_string(R), {{"begin", jint(b)}, {"end", jint(e)}});
+                }
+                if (!holds(k, b, e))
+                {
+                    cx.fail("convert:mem=own-cmap-slice:rank" + std::to_string(R), {{"begin", jint(b)}, {"end", jint(e)}});
+                }
+            }
+        }
+        {
+            M a = mem;
+            a   = P(a);
+            M k = mem;
+            k   = C(k);
+            M z = mem;
+            z   = *&z;
+            judge("mem=own-map", holds(a, 0, n0));
+            judge("mem=own-cmap", holds(k, 0, n0));
+            judge("mem=itself", holds(z, 0, n0));
+        }
+    }
     if (!buf.intact())
     {
         cx.fail("memory:convert", {});
